@@ -37,6 +37,7 @@ RULE = (
 )
 ASSUMPTIONS = [
     "differential oracle: a synonym is indistinguishable from the geometric name when both give bit-identical values (same mpf / same expression for 60-digit and SymPy vectors) or raise the same exception type; after an assignment the two objects must be identical",
+    "raw Awkward arrays (ak.Array(records, with_name='Momentum<N>D') with momentum-spelled fields, the route docs/src/make_awkward.md documents) are compared, through every coordinate getter, the class name and a carried non-coordinate field, with the same array spelled geometrically, after each of ~17 single-vector operations followed by each of 5 second steps",
     "the synonym table is read from vector._methods._repr_momentum_to_generic and joined with the derived synonyms of the statement",
 ]
 CAP_S = {"quick": 900, "thorough": 3600}
@@ -67,7 +68,10 @@ def shards(tier):
     out = []
     for dim in (2, 3, 4):
         for s in L.SYSTEMS[dim]:
-            out.append({"dim": dim, "sys": list(s)})
+            for k in range(3):
+                out.append({"dim": dim, "sys": list(s), "part": "raw_awkward", "layout": k})
+            out.append({"dim": dim, "sys": list(s), "part": "main"})
+    out.sort(key=lambda sh: (sh["part"] != "raw_awkward", -sh["dim"]))
     return out
 
 
@@ -113,12 +117,12 @@ def _vectors(dim, tier):
     return vs if tier == "thorough" else vs[::4][:6]
 
 
-def check(res: Result, dim, system, tier, only=None):
+def check(res: Result, dim, system, tier, only=None, raw_layout=None):
     syn = synonyms(dim)
     sysn = L.sysname(system)
 
     def compare(clause, backend, name, fa, fb, case):
-        if only is not None and only != clause:
+        if only is not None and only != clause and only != "!raw_awkward":
             return
         res.states += 1
         res.transitions += 2
@@ -269,6 +273,12 @@ def check(res: Result, dim, system, tier, only=None):
                 compare("to_spelling", bname, mname, lambda o=o, km=km: getattr(o, mname)(**km), lambda o=o, kg=kg: getattr(o, gname)(**kg),
                         {"clause": "to_spelling", "backend": bname, "sys": list(system), "name": mname})
 
+    # ------------------------------------------------------------------ Awkward arrays whose records *spell* their fields as momenta
+    if only in (None, "raw_awkward"):
+        check_raw_awkward(res, dim, system, frows, tier, raw_layout)
+        if only == "raw_awkward":
+            return
+
     # ------------------------------------------------------------------ the flavor never changes a number
     partner = A.partners(dim, tier)[0]
     for op in OPS:
@@ -303,9 +313,105 @@ def check(res: Result, dim, system, tier, only=None):
     res.sample({"sys": list(system), "synonyms": sorted(syn), "operands": len(rows)})
 
 
+SPELLINGS = {"x": ["px"], "y": ["py"], "rho": ["pt"], "phi": [], "z": ["pz"], "theta": [], "eta": [], "t": ["E", "e", "energy"], "tau": ["M", "m", "mass"]}
+COORD_GETTERS = {2: ["x", "y", "rho", "phi", "px", "py", "pt"], 3: ["z", "theta", "eta", "pz", "mag", "p"], 4: ["t", "tau", "E", "e", "energy", "M", "m", "mass"]}
+
+
+def _raw_spellings(system, tier):
+    """field-name tuples for a system: every coordinate spelled generically or through any of its synonyms (the full
+    product in thorough; in quick one coordinate at a time, all canonical momentum names, and the first synonym of each)"""
+    gen = L.field_names(system)
+    opts = [[g] + SPELLINGS[g] for g in gen]
+    import itertools
+
+    full = [t for t in itertools.product(*opts) if t != tuple(gen)]
+    if tier == "thorough":
+        return full
+    keep = []
+    for i, g in enumerate(gen):
+        for sname in SPELLINGS[g]:
+            t = list(gen)
+            t[i] = sname
+            keep.append(tuple(t))
+    keep.append(tuple(L.field_names(system, "momentum")))
+    keep.append(tuple((SPELLINGS[g][-1] if SPELLINGS[g] else g) for g in gen))
+    return [t for t in dict.fromkeys(keep) if t in full]
+
+
+def check_raw_awkward(res: Result, dim, system, frows, tier, raw_layout=None):
+    """The documented native route: ak.Array(records, with_name="Momentum<N>D") with the fields spelled px, py, pt, pz, E, e,
+    energy, M, m, mass (any mixture) is, value for value, the array whose fields carry the geometric names: after any
+    single-vector operation and a following conversion too (a result must hold its own coordinates only)."""
+    gen = L.field_names(system)
+    sysn = L.sysname(system)
+    beh = vector.backends.awkward.behavior
+    rows = frows[:4]
+
+    def build(names, layout, record=False):
+        recs = [dict(zip(names, r), charge=i + 1) for i, r in enumerate(rows)]
+        if layout == "jagged":
+            recs = [recs[:1], [], recs[1:]]
+        a = ak.Array(recs, with_name=f"Momentum{dim}D", behavior=beh)
+        return a[0] if record else a
+
+    first_ops = [("identity", lambda v: v), ("neg", lambda v: -v), ("scale(-2)", lambda v: v.scale(-2.0)), ("mul(3)", lambda v: v * 3.0), ("rotateZ(0.5)", lambda v: v.rotateZ(0.5)),
+                 ("to_Vector2D", lambda v: v.to_Vector2D()), (f"to_Vector{dim}D", lambda v: getattr(v, f"to_Vector{dim}D")()), ("unit", lambda v: v.unit()),
+                 ("to_own", lambda v: getattr(v, "to_" + "".join(gen))()), ("to_xy*", lambda v: getattr(v, "to_" + "".join(L.field_names(("xy",) + tuple(system[1:]))))()),
+                 ("to_rhophi*", lambda v: getattr(v, "to_" + "".join(L.field_names(("rhophi",) + tuple(system[1:]))))())]
+    if dim >= 3:
+        first_ops += [("rotateX(0.5)", lambda v: v.rotateX(0.5)), ("to_Vector3D", lambda v: v.to_Vector3D()),
+                      ("rotate_axis", lambda v: v.rotate_axis(vector.obj(x=0.5, y=-1.0, z=2.0), 0.75))]
+    if dim == 4:
+        first_ops += [("boostX(0.25)", lambda v: v.boostX(0.25)), ("boostZ(gamma)", lambda v: v.boostZ(gamma=1.5)), ("to_Vector4D", lambda v: v.to_Vector4D())]
+    second_ops = [("", lambda v: v), (".to_rhophi", lambda v: v.to_rhophi()), (".to_xy", lambda v: v.to_xy()), (".scale(2)", lambda v: v.scale(2.0)), (".rotateZ(-1)", lambda v: v.rotateZ(-1.0))]
+    getters = [g for d in (2, 3, 4) if d <= dim for g in COORD_GETTERS[d]]
+
+    def observe(r):
+        """what a user can read: record name (class / dimension), every coordinate getter, the non-coordinate field"""
+        out = {"type": type(r).__name__}
+        for g in getters + ["charge"]:
+            try:
+                out[g] = ak.to_list(getattr(r, g))
+            except Exception as e:  # noqa: BLE001
+                out[g] = "raises " + type(e).__name__
+        return out
+
+    for li, (layout, record) in enumerate((("flat", False), ("jagged", False), ("flat", True))):
+        if raw_layout is not None and li != raw_layout:
+            continue
+        try:
+            ref_arr = build(gen, layout, record)
+        except Exception:  # noqa: BLE001
+            continue
+        refs = {}
+        for names in _raw_spellings(system, tier):
+            arr = build(names, layout, record)
+            for n1, f1 in first_ops:
+                for n2, f2 in second_ops:
+                    label = n1 + n2
+                    res.states += 1
+                    res.transitions += 2
+                    res.traces += 1
+                    res.evaluations += 1
+                    case = {"clause": "raw_awkward", "sys": list(system), "fields": list(names), "layout": layout, "record": record, "call": label}
+                    if label not in refs:
+                        refs[label] = _try(lambda: observe(f2(f1(ref_arr))))
+                    got = _try(lambda: observe(f2(f1(arr))))
+                    want = refs[label]
+                    spelled = "+".join(n for n, g in zip(names, gen) if n != g)
+                    cls_ = f"raw_awkward|{'AKR' if record else 'AKA'}|{n1}|{sysn}|{spelled}"
+                    if got[0] != want[0] or (got[0] == "raise" and got[1] != want[1]):
+                        res.violation(cls_, f"{label} on fields {names}: {got}, with the geometric field names {gen}: {want}", case)
+                    elif got[0] == "ok" and not _nan_eq(got[1], want[1]):
+                        diff = {k: (got[1][k], want[1][k]) for k in got[1] if not _nan_eq(got[1][k], want[1][k])}
+                        res.violation(cls_, f"{label} on an array with fields {names} differs from the same array with the geometric field names {gen}: " + "; ".join(f"{k}: {a!r} vs {b!r}" for k, (a, b) in list(diff.items())[:3]), case)
+                    else:
+                        res.nontrivial += 1
+
+
 def run_shard(shard, tier):
     res = Result()
-    check(res, shard["dim"], tuple(shard["sys"]), tier)
+    check(res, shard["dim"], tuple(shard["sys"]), tier, only="raw_awkward" if shard["part"] == "raw_awkward" else "!raw_awkward", raw_layout=shard.get("layout"))
     return res
 
 
